@@ -523,7 +523,57 @@ struct Judged {
 }
 
 /// the direct oracles, over observations only
-fn judge(sc: &Script, obs: &[Obs]) -> Judged {
+/// The property's own reading of "invalid" (independent of the Coq model): which requests MUST be refused.
+fn spec_invalid_vec(v: &Vecr, dim: usize) -> bool {
+    v.len() == 0 || v.len() > 4096 || v.len() != dim || nonfinite(v)
+}
+fn spec_invalid_id(id: u64) -> bool {
+    id == 0 || id > U32MAX
+}
+fn spec_invalid_sq(q: &Sq, dim: usize) -> bool {
+    spec_invalid_vec(&q.q, dim) || q.k == 0 || q.k > 1000 || q.ef > 10000
+}
+/// Some(description) when the answer ACCEPTS something the property says must be refused
+fn accepted_but_invalid(op: &Op, resp: &Resp, dim: usize, max_batch: u64) -> Option<String> {
+    let refused = matches!(resp, Resp::Refused(..));
+    match op {
+        Op::Insert(i) if (spec_invalid_id(i.id) || spec_invalid_vec(&i.vec, dim)) && !refused => Some("Insert of an invalid id / vector was accepted".into()),
+        Op::Search(q) if spec_invalid_sq(q, dim) && !refused => Some("Search with an invalid vector / k / ef was accepted".into()),
+        Op::Query(id) | Op::Delete(id) | Op::Update(id, ..) if spec_invalid_id(*id) && !refused => Some("a call on doc_id 0 / beyond the tenant-local range was accepted".into()),
+        Op::BulkQuery(v) | Op::BatchDeleteIds(v) if (rl_len(v) as u64 > max_batch || v.iter().any(|(id, _)| *id > U32MAX)) && !refused => {
+            Some("an oversized id batch / an id beyond the tenant-local range was accepted".into())
+        }
+        Op::BatchDeleteNone if !refused => Some("BatchDelete without criteria was accepted".into()),
+        Op::BulkInsert(v) | Op::BulkLoad(v) => {
+            let total = rl_len(v) as u64;
+            let mut invalid: u64 = v.iter().filter(|(i, _)| spec_invalid_id(i.id) || spec_invalid_vec(&i.vec, dim)).map(|(_, n)| *n as u64).sum();
+            if matches!(op, Op::BulkInsert(_)) && total > max_batch {
+                // everything from item max_batch+1 on must not be stored
+                let mut seen = 0u64;
+                invalid = 0;
+                for (i, n) in v {
+                    for _ in 0..*n {
+                        seen += 1;
+                        if seen > max_batch || spec_invalid_id(i.id) || spec_invalid_vec(&i.vec, dim) {
+                            invalid += 1;
+                        }
+                    }
+                }
+            }
+            match resp {
+                Resp::Insert(_, ins, _) | Resp::BulkLoad(_, ins, _) if *ins + invalid > total => Some(format!("{} items stored although {} of {} are invalid", ins, invalid, total)),
+                _ => None,
+            }
+        }
+        Op::BulkSearch(v) if v.iter().any(|(q, _)| spec_invalid_sq(q, dim)) => match resp {
+            Resp::Stream { fin: None, .. } => Some("a BulkSearch stream with an invalid request ended without any error".into()),
+            _ => None,
+        },
+        _ => None,
+    }
+}
+
+fn judge(sc: &Script, obs: &[Obs], max_batch: u64) -> Judged {
     let mut j = Judged { failures: vec![], known: vec![], internal: BTreeMap::new(), refusals: 0, item_failures: 0 };
     let mut prev: Option<Census> = Some(POOL.iter().map(|id| (*id, None)).collect());
     for (i, (st, o)) in sc.steps.iter().zip(obs.iter()).enumerate() {
@@ -565,6 +615,9 @@ fn judge(sc: &Script, obs: &[Obs]) -> Judged {
                     fail(format!("INTERNAL that is neither an engine refusal nor a decode failure: {} ({})", cls, msg));
                 }
             }
+        }
+        if let Some(why) = accepted_but_invalid(&st.op, &o.resp, sc.dim, max_batch) {
+            fail(format!("accepted-but-invalid: {}", why));
         }
         if o.panics > 0 {
             fail(format!("{} panic line(s) appeared in the server log during this step", o.panics));
@@ -776,7 +829,7 @@ fn main() {
             }
         };
         startup += st;
-        let j = judge(sc, &obs);
+        let j = judge(sc, &obs, lim.max_batch);
         failures.extend(j.failures);
         known.extend(j.known);
         for (a, b) in j.internal {
@@ -824,7 +877,7 @@ fn main() {
         m.name = "confirm".into();
         match run_script(&m) {
             Ok((obs, _)) => {
-                let j = judge(&m, &obs);
+                let j = judge(&m, &obs, lim.max_batch);
                 confirmed = json!({"reproduced": !j.known.is_empty(), "observations": obs.iter().map(|o| format!("{:?}", o.resp)).collect::<Vec<_>>()});
             }
             Err(e) => confirmed = json!({"reproduced": false, "error": e}),
